@@ -69,7 +69,7 @@ SPECS["C10"] = dict(level="exploration", assumptions=SCHED_ASSUME, min_relevant=
 
 SPECS["C11"] = dict(level="exploration", assumptions=SCHED_ASSUME + ["the client-side ledger counts a message as settled when the client sent its ack/nack on the stream, or when an external Acknowledge returned; a lapsed lease counts as settled for the bound and as still occupying its slot for the no-stall check (the sound side in both cases)"],
     min_relevant={"quick": 300, "thorough": 3000},
-    rule="seeded stream scripts: flow control max_outstanding_messages in {1,2,3,10,1000,default} x max_outstanding_bytes in {default,30,50,120,300} x message size mixes; actions {stream ack, stream nack (zero deadline), stream deadline extension, external Acknowledge, publish} with random virtual delays at the stream's transaction boundaries and sends. Monitors: outstanding-count / byte ledger evaluated synchronously at every Send; at quiescence after every capacity-freeing action, 'free slot + fitting deliverable message => it was sent'. Non-trivial = the stream reached its message limit at least once; distinct = distinct (limits, sizes, action script).",
+    rule="seeded stream scripts: flow control max_outstanding_messages in {1,2,3,10,1000,default} x max_outstanding_bytes in {default,30,50,120,300} x message size mixes; actions {stream ack, stream nack (zero deadline), stream deadline extension, external Acknowledge, publish, lease-lapse (messages handed out by a unary pull before the stream opened become deliverable again purely by time passing; checked as bounded progress: sent within 70 virtual seconds)} - a fifth of the cases start in the byte-bound shape (something outstanding, a due message too big for the rest of the budget, a small one leased elsewhere) - with random virtual delays at the stream's transaction boundaries and sends. Monitors: outstanding-count / byte ledger evaluated synchronously at every Send; at quiescence after every capacity-freeing action, 'free slot + fitting deliverable message => it was sent'. Non-trivial = the stream reached its message limit at least once; distinct = distinct (limits, sizes, action script).",
     parts=[dict(name="flow", binary="rigv", pkg="rigv", test="TestC11", race=True, shards={"quick": 16, "thorough": 16})])
 
 SPECS["C12"] = dict(level="exploration", assumptions=HIST_ASSUME[:2] + ["'exactly that project' is decided by byte-wise string prefix in the reference, so SQL LIKE semantics of the implementation are on trial", "racing creators are interleaved at transaction boundaries only (SQLite immediate transactions)"],
